@@ -13,6 +13,12 @@ namespace WhVerif.C06
 
 def isMatchOp (p : Nat × Nat) : Bool := isMatch p.1
 
+/-- the re-alignment window ends here: only soft/hard clips up to the end of the read, or — with the repaired
+`cigar_prefix_length` (`f14`) — up to a reference skip -/
+def endsWindow (f14 : Bool) : Cigar → Bool
+  | [] => true
+  | (op, _) :: rest => if op == 4 || op == 5 then endsWindow f14 rest else (f14 && op == 3)
+
 def hapOf (R : Seq) (pos L : Nat) (a : Seq) : Seq := R.take pos ++ a ++ R.drop (pos + L)
 
 def qualSum (quals : Option (List Nat)) : Nat → Nat → Nat
